@@ -135,7 +135,7 @@ def build(doc, how):
                     days, rem = divmod(t, tsref.US_PER_DAY)
                     y, mo, dd = tsref.civil_from_days(days)
                     secs, us = divmod(rem, 10 ** 6)
-                    v = STIXdatetime(dt.datetime(y, mo, dd, secs // 3600, secs % 3600 // 60, secs % 60, us, tzinfo=dt.timezone.utc), precision=prec, precision_constraint=cons)
+                    v = STIXdatetime(dt.datetime(y, mo, dd, secs // 3600, secs % 3600 // 60, secs % 60, us, tzinfo=__import__("pytz").utc), precision=prec, precision_constraint=cons)
             kw[k] = v
         return core.guarded(cls, allow_custom=True, **kw)
     if how == "observed-data-member":
